@@ -4,6 +4,8 @@ import (
 	"context"
 	"errors"
 	"fmt"
+	"sync"
+	"sync/atomic"
 	"time"
 
 	"github.com/GoogleCloudPlatform/grpc-gcp-go/grpcgcp"
@@ -132,8 +134,96 @@ func RunSched(p *SchedProg) (violation string, steps int) {
 		return schedRR(p)
 	case "sched-addr":
 		return schedAddr(p)
+	case "sched-spread":
+		return schedSpread(p)
 	}
 	return "", 0
+}
+
+// schedSpread: n READY channels with equal load (0, or the watermark: a saturated pool at maxSize), no completions;
+// NPick tasks place plain calls through ONE picker. Choosing the least loaded channel and counting the call there is one
+// step (C02: "every placement adds one", "minimal among those channels"): from equal loads, after any number of
+// placements the per-channel counts differ by at most one. Two picks that overlap must not see the same minimum.
+func schedSpread(p *SchedProg) (string, int) {
+	n := p.Max
+	if n < 2 {
+		n = 2
+	}
+	wm := []int{100, 1, 2}[p.Extra%3]
+	e, err := newPoolEnv(fmt.Sprintf(`{"channelPool":{"minSize":%d,"maxSize":%d,"maxConcurrentStreamsLowWatermark":%d},%s}`, n, n, wm, schedMethods), n, true)
+	if err != nil {
+		return "C17|" + err.Error(), 0
+	}
+	e.bringUpAll()
+	pk := e.readyPickers()
+	if len(pk) == 0 {
+		return "", 0
+	}
+	cur := pk[len(pk)-1]
+	counts := map[*csc]int{}
+	var cmu sync.Mutex
+	place := func() error {
+		r, err := cur.Pick(balancer.PickInfo{Ctx: context.Background(), FullMethodName: "/plain"})
+		if err != nil {
+			return err
+		}
+		cmu.Lock()
+		counts[r.SubConn.(*csc)]++
+		cmu.Unlock()
+		return nil
+	}
+	if (p.Extra/3)%2 == 1 {
+		// start from a pool in which every channel already carries wm calls (saturated at maxSize)
+		for i := 0; i < n*wm && wm < 100; i++ {
+			if err := place(); err != nil {
+				return "C02|setup pick failed: " + err.Error(), 0
+			}
+		}
+	}
+	per := 1 + (p.Extra/6)%2
+	tasks := p.NPick
+	if tasks < 2 {
+		tasks = 2
+	}
+	s := NewSched()
+	var perr atomic.Value
+	for g := 0; g < tasks; g++ {
+		s.Go(fmt.Sprintf("pick-%d", g), func() {
+			for i := 0; i < per; i++ {
+				if err := place(); err != nil {
+					perr.Store(err.Error())
+				}
+			}
+		})
+	}
+	res, v := p.run(s, 600, func() string { return violationOf(e.cc) })
+	p.Trace = s.Trace
+	s.Drain()
+	if v == "" && res.Deadlock == "" && res.Panic == "" && res.Steps < 600 {
+		if m := perr.Load(); m != nil {
+			v = "C02|a plain call on a pool of READY channels at maxSize was not placed: " + m.(string)
+		} else {
+			cmu.Lock()
+			lo, hi, total := 1<<30, 0, 0
+			e.cc.mu.Lock()
+			for _, sc := range e.cc.all {
+				c := counts[sc]
+				total += c
+				if c < lo {
+					lo = c
+				}
+				if c > hi {
+					hi = c
+				}
+			}
+			e.cc.mu.Unlock()
+			cmu.Unlock()
+			if hi-lo > 1 {
+				v = fmt.Sprintf("C02|%d plain calls placed through one picker on %d READY channels that started with equal load, none completed: the busiest channel carries %d, the idlest %d (a call was placed on a channel that was not the least loaded one: two overlapping picks saw the same minimum)", total, n, hi, lo)
+			}
+		}
+	}
+	return judgeSched(res, v), res.Steps
 }
 
 // schedGrowth: saturated pool below maxSize, picks on distinct (stale and current) pickers race with
